@@ -69,6 +69,10 @@ func exec(line string) string {
 			cur, oth = oth, cur
 		case op == "r":
 			cur.Reset()
+		case strings.HasPrefix(op, "sk"): // one Read of n bytes whose output is thrown away (long-range node offsets)
+			var n int
+			fmt.Sscanf(op[2:], "%d", &n)
+			cur.Read(make([]byte, n))
 		case strings.HasPrefix(op, "rd"):
 			var n int
 			fmt.Sscanf(op[2:], "%d", &n)
@@ -125,7 +129,7 @@ func readSize(r *hx.Rand, size int) int {
 
 func gen(g *hx.Gen) {
 	r := g.R
-	n := g.Count(4000, 120000)
+	n := g.Count(3000, 120000)
 	for i := 0; i < n; i++ {
 		alg := r.PickStr("b", "s")
 		size, bs, maxLen := 64, 128, 70000
@@ -229,6 +233,15 @@ func gen(g *hx.Gen) {
 		}
 		if r.Chance(1, 3) {
 			ops = append(ops, "rd5", "rd0") // at / after the end
+		}
+		if (length == 0 || length > 60000) && (r.Chance(1, 100) || (g.Thorough() && r.Chance(1, 10))) {
+			// node offsets beyond 2^16: skip far ahead (output discarded), then compare real output again
+			far := 65536*size + r.PickInt(-size-1, -1, 0, 1, size, 3*size+5)
+			if g.Thorough() && r.Bool() {
+				far = r.Range(1, 40) * 65536 * size / 8
+			}
+			ops = append(ops, fmt.Sprintf("sk%d", far), fmt.Sprintf("rd%d", r.PickInt(1, size, size+1, 2*size+3)), "rd7")
+			g.Stat("skip.past-node-65536")
 		}
 		g.Stat("alg." + alg)
 		g.Emit("xof alg=%s path=%s len=%d key=%s ops=%s data=%s", alg, hx.Pick(r, paths), length, hx.Hex(r.Bytes(kl)), hx.JoinStrs(ops), hx.Hex(r.Bytes(total)))
